@@ -32,4 +32,45 @@ def locateRP (d : HDict) (g : Grammar) (seqs : List (List Nat)) (q : Str) : Opti
   | none => some 0
   | some r => r
 
+/-! ### HASHRPF: the strings are stored one after the other in one symbol sequence (`Cls`), each closed
+by the terminator `maxchar`; a cell holds the offset of its string. -/
+
+/-- The loop of `RePair::extractStringAndCompareRP` over the symbols from the string's offset on
+(`while (pos <= strLen)`): `none` = a read outside the sequence or outside the pattern buffer. -/
+def cmpStream (g : Grammar) (buf : List Nat) (strLen : Nat) : Nat → List Nat → Nat → Option Int
+  | 0, _, _ => none
+  | fuel + 1, stream, pos =>
+    if pos ≤ strLen then
+      match stream with
+      | [] => none
+      | s :: rest =>
+        let r := if s ≥ g.terminals then RPDAC.cmpRule g buf (g.rules.length + 1) (s - g.terminals) pos
+                 else RPDAC.cmpTerm buf s pos
+        match r with
+        | none => none
+        | some (c, p) => if c ≠ 0 then some c else cmpStream g buf strLen fuel rest p
+    else some 0
+
+/-- `extractStringAndCompareRP(offset, str, strLen)` (with the guard against patterns containing `maxchar`). -/
+def compareRP (g : Grammar) (maxchar : Nat) (stream : List Nat) (q : List Nat) : Option Int :=
+  if q.any (· == maxchar) then some 1
+  else cmpStream g (q ++ [maxchar]) q.length (q.length + 2) stream 0
+
+/-- The probe function of `StringDictionaryHASHRPF::locate`; `offs` gives the offset stored in a cell. -/
+def lfRPF (d : HDict) (g : Grammar) (maxchar : Nat) (cls : List Nat) (offs : Nat → Nat) (q : Str) (i : Nat) :
+    Option (Option Nat) :=
+  let cell := probe (bitwisehash q d.tsize) (stepValue q d.tsize) d.tsize i
+  match d.table.getD cell none with
+  | none => some (some 0)
+  | some _ =>
+    match compareRP g maxchar (cls.drop (offs cell)) (natBytes q) with
+    | none => some none
+    | some c => if c = 0 then some (some (rankOcc d.table cell)) else none
+
+/-- `StringDictionaryHASHRPF::locate`. -/
+def locateRPF (d : HDict) (g : Grammar) (maxchar : Nat) (cls : List Nat) (offs : Nat → Nat) (q : Str) : Option Nat :=
+  match (List.range d.tsize).findSome? (lfRPF d g maxchar cls offs q) with
+  | none => some 0
+  | some r => r
+
 end CSD.Hash
